@@ -28,6 +28,7 @@ RULE = ("cases = histories of Calendar.set_mode calls over the 7 mode "
         "non-trivial = battery item evaluated after at least one switch to a "
         "different canonical mode; distinct by (previous mode, current mode "
         "spelling, item)")
+RUN_REPO_SUITE = True   # thorough tier: repo tests under these monitors
 DECIDING = ["battery.checked", "helper.post", "inner.post", "set_mode.post"]
 MIN_EVALS = {"battery.checked": 1500, "helper.post": 20000,
              "inner.post": 500, "set_mode.post": 60}
